@@ -24,6 +24,8 @@ type Engine struct {
 	CaseType, Agree, PropOk string
 	// Extra: further named verdict functions printed as kv_<name> (indices where the function is false)
 	Extra map[string]string
+	// Stat: named functions case -> nat; their sum over the shard is printed as kvs_<name> (statistics, not verdicts)
+	Stat map[string]string
 	// Parallel > 1: cases are independent and slow (timers): run that many at once
 	Parallel int
 	// Gen produces the i-th case (JSON-serialisable input) from the PRNG
@@ -203,6 +205,9 @@ func runEngine(name string, e *Engine, seed int64, n int, out, replay, corpus st
 		fmt.Fprintf(&sb, "Print kv_diff.\nPrint kv_viol.\n")
 		for name, fn := range e.Extra {
 			fmt.Fprintf(&sb, "Definition kv_%s := Eval vm_compute in failing %s cases.\nPrint kv_%s.\n", name, fn, name)
+		}
+		for name, fn := range e.Stat {
+			fmt.Fprintf(&sb, "Definition kvs_%s := Eval vm_compute in fold_left Nat.add (map %s cases) 0%%nat.\nPrint kvs_%s.\n", name, fn, name)
 		}
 		fname := filepath.Join(out, fmt.Sprintf("Cases_%d.v", nshards))
 		if err := ioutil.WriteFile(fname, []byte(sb.String()), 0o644); err != nil {
